@@ -302,3 +302,59 @@ SPEC("pane.classes", "PaneConverter.into_data",
                                                 not truthy(sat(self.fields, i).exclude) and sat(self.fields, i).out_name == k
                                                 and mget(result, k) == field_ser(self, val, i))))), ["C15", "C05"], "ser-struct")],
      raises=(lambda self, val, exc: exc_is(exc, ValueError), ["C15"]))
+
+
+# ---------------------------------------------------------------------------------------------
+# PaneConverter.__init__ (C15 name resolution, C18 handler precedence): establishes the class invariant
+def names_field(self, k, i):
+    # k is an input name of field i: its Python name or one of its configured input names
+    return truthy(sat(self.fields, i).init) and (k == sat(self.fields, i).name or exists(
+        range(slen(as_seq(sat(self.fields, i).in_names))), lambda a: sat(as_seq(sat(self.fields, i).in_names), a) == k))
+
+
+def class_local_is_own_then_outer(self, handlers, H):
+    return (slen(as_seq(H.class_local)) == slen(as_seq(self.opts.class_handlers)) + slen(as_seq(handlers.class_local))
+            and forall(range(slen(as_seq(self.opts.class_handlers))),
+                       lambda j: sat(as_seq(H.class_local), j) == sat(as_seq(self.opts.class_handlers), j))
+            and forall(range(slen(as_seq(handlers.class_local))),
+                       lambda j: sat(as_seq(H.class_local), slen(as_seq(self.opts.class_handlers)) + j) == sat(as_seq(handlers.class_local), j)))
+
+
+SPEC("pane.classes", "PaneConverter.__init__",
+     shapes=dict(PANE_SHAPES, **{"self.cls_info.fields": "seq", "self.cls_info.fields[]": "rec:Field", ".class_handlers": "seq",
+                                 ".class_local": "seq", ".globals": "seq", "f.in_names": "seq", "handlers": "rec:ConverterHandlers",
+                                 "field.in_names": "seq"}),
+     mutable=["self"],
+     assumes=[lambda self, cls, handlers: forall(range(slen(getattr(cls, "__pane_info__").fields)), lambda i:
+              isinstance(sat(getattr(cls, "__pane_info__").fields, i).name, str)
+              and forall(range(slen(as_seq(sat(getattr(cls, "__pane_info__").fields, i).in_names))), lambda a:
+                         hashable(sat(as_seq(sat(getattr(cls, "__pane_info__").fields, i).in_names), a))))],
+     note="assumed: field names / input names are hashable strings (Field records built by FieldSpec.make_field)",
+     ensures=[
+         (lambda self, cls, handlers: self.fields is getattr(cls, "__pane_info__").fields and self.opts is getattr(cls, "__pane_info__").opts
+          and slen(self.field_converters) == slen(self.fields), ["C15", "C17"], "wiring"),
+         # a field's own converter wins outright; otherwise the field type is built with: call-level handlers kept,
+         # this class's handlers BEFORE those of enclosing classes (C18)
+         (lambda self, cls, handlers: exists_val(lambda H: isinstance(H, ConverterHandlers) and H.globals is handlers.globals
+                                                 and class_local_is_own_then_outer(self, handlers, H)
+                                                 and forall(range(slen(self.fields)), lambda i: sat(self.field_converters, i) == ite(
+                                                     is_none(sat(self.fields, i).converter), mkconv(sat(self.fields, i).type, H),
+                                                     sat(self.fields, i).converter))), ["C18", "C15"], "handlers"),
+         # input-name map: a key is bound exactly when it is an input name of some constructor field
+         (lambda self, cls, handlers: forall_val(lambda k: mhas(self.field_map, k) ==
+                                                 exists(range(slen(self.fields)), lambda i: names_field(self, k, i))), ["C15"], "field-map-keys"),
+         (lambda self, cls, handlers: forall_val(lambda k: implies(
+             mhas(self.field_map, k),
+             is_int_key(mget(self.field_map, k)) and 0 <= fm_index(self, k) and fm_index(self, k) < slen(self.fields)
+             and names_field(self, k, fm_index(self, k)))), ["C15", "C06"], "field-map-values")],
+     invariants={
+         0: lambda it, self: forall_val(lambda k: mhas(self.field_map, k) == exists(range(it), lambda i: names_field(self, k, i)))
+         and forall_val(lambda k: implies(mhas(self.field_map, k),
+                                          is_int_key(mget(self.field_map, k)) and 0 <= fm_index(self, k) and fm_index(self, k) < it
+                                          and names_field(self, k, fm_index(self, k)))),
+         1: lambda it, self, i, f: forall_val(lambda k: mhas(self.field_map, k) ==
+                                              (exists(range(i), lambda i2: names_field(self, k, i2)) or k == f.name
+                                               or exists(range(it), lambda a: sat(as_seq(f.in_names), a) == k)))
+         and forall_val(lambda k: implies(mhas(self.field_map, k),
+                                          is_int_key(mget(self.field_map, k)) and 0 <= fm_index(self, k) and fm_index(self, k) <= i
+                                          and names_field(self, k, fm_index(self, k))))})
